@@ -4,6 +4,7 @@ package world
 
 import (
 	"fmt"
+	"hash/fnv"
 	"math"
 	"os"
 	"path/filepath"
@@ -169,10 +170,27 @@ func (w *World) Refresh() {
 	w.Version++
 	w.Commits++
 	nrows := 0
+	h := fnv.New64a()
 	for _, t := range s.Tables {
 		nrows += len(t.Rows)
+		fmt.Fprintf(h, "T%s/%v;", t.Name, t.WithoutRowid)
+		for i, r := range t.Rows {
+			if t.Rowids != nil {
+				fmt.Fprintf(h, "%d:", t.Rowids[i])
+			}
+			h.Write([]byte(sq.FmtRowExact(r)))
+		}
+		for _, ix := range t.Indexes {
+			fmt.Fprintf(h, "I%s/%d;", ix.Name, len(ix.Entries))
+			for _, e := range ix.Entries {
+				fmt.Fprintf(h, "%d,", e.Pos)
+			}
+		}
 	}
-	w.C.Log.Add("O", "snapshot", "v%d tables=%d rows=%d pages=%d free=%d", w.Version, len(s.Tables), nrows, s.PragmaInt("page_count"), s.PragmaInt("freelist_count"))
+	for _, m := range s.Master {
+		fmt.Fprintf(h, "M%s/%s/%d;", m.Type, m.Name, m.Rootpage)
+	}
+	w.C.Log.Add("O", "snapshot", "v%d tables=%d rows=%d pages=%d free=%d content=%x", w.Version, len(s.Tables), nrows, s.PragmaInt("page_count"), s.PragmaInt("freelist_count"), h.Sum64())
 }
 
 func (w *World) newName(prefix string) string {
@@ -348,6 +366,11 @@ func (w *World) InsertRows(table string, n int) {
 	useCols := cols
 	if len(cols) > 1 && s.Chance(1, 8, "fewercols") {
 		useCols = cols[:1+s.Draw(len(cols)-1, "ncols")]
+		if alias >= 0 && w.hasMax[key] {
+			// the alias column must be given explicitly: after the maximum rowid
+			// SQLite allocates rowids at random
+			useCols = cols
+		}
 	}
 	explicitRowid := !t.WithoutRowid && t.RowidAlias != nil && alias < 0 && (w.hasMax[key] || s.Chance(1, 3, "explicitrowid"))
 	var names []string
@@ -371,7 +394,7 @@ func (w *World) InsertRows(table string, n int) {
 		var row []sq.Val
 		if explicitRowid {
 			rid := w.genRowid(t)
-			if rid == math.MaxInt64 {
+			if rid >= math.MaxInt64-1000000 {
 				w.hasMax[key] = true
 			}
 			row = append(row, rid)
@@ -387,7 +410,7 @@ func (w *World) InsertRows(table string, n int) {
 				// the (probable) rowid alias: keep allocation deterministic
 				if w.hasMax[key] || s.Chance(1, 2, "aliasexplicit") {
 					rid := w.genRowid(t)
-					if rid == math.MaxInt64 {
+					if rid >= math.MaxInt64-1000000 {
 						w.hasMax[key] = true
 					}
 					v = rid
@@ -503,7 +526,7 @@ func (w *World) Step() {
 		if rowidAliasCol(t) >= 0 && strings.EqualFold(t.Columns[rowidAliasCol(t)].Name, cols[ci]) {
 			// updating the rowid alias: use an integer
 			v = w.genRowid(t)
-			if v.(int64) == math.MaxInt64 {
+			if v.(int64) >= math.MaxInt64-1000000 {
 				w.hasMax[strings.ToLower(t.Name)] = true
 			}
 		}
@@ -624,4 +647,97 @@ func Scratch(tag string) (string, error) {
 		base = os.TempDir()
 	}
 	return os.MkdirTemp(base, "verif-"+tag+"-")
+}
+
+var hostileSQL = []string{
+	"CREATE TABLE x (a, PRIMARY KEY(nope))",
+	"CREATE TABLE x (a, b, PRIMARY KEY(a+1))",
+	"CREATE TABLE x (a, b, PRIMARY KEY(nope)) WITHOUT ROWID",
+	"CREATE TABLE x (a, b, UNIQUE(zz))",
+	"CREATE TABLE x (a, b, UNIQUE(zz), PRIMARY KEY(b, qq)) WITHOUT ROWID",
+	"CREATE TABLE x (a PRIMARY KEY, b, UNIQUE(lower(b)))",
+	"CREATE TABLE x (\"a",
+	"CREATE TABLE x ('a' 'b')",
+	"CREATE TABLE x (é, b)",
+	"CREATE TABLE x (a DEFAULT 99999999999999999999)",
+	"CREATE TABLE x (a DEFAULT 0x)",
+	"CREATE TABLE x (a DEFAULT 1e999999)",
+	"CREATE TABLE x (a DEFAULT .)",
+	"CREATE TABLE x (a, b) WITHOUT ROWID",
+	"CREATE TABLE x ()",
+	"CREATE TABLE x (a INTEGER PRIMARY KEY, a INTEGER PRIMARY KEY)",
+	"CREATE TABLE x (a, FOREIGN KEY (zz) REFERENCES y)",
+	"CREATE INDEX i ON x (nope)",
+	"CREATE INDEX i ON x ()",
+	"CREATE INDEX i ON x (a) WHERE",
+	"CREATE UNIQUE INDEX i ON nosuch (a, b DESC)",
+	"SELECT * FROM x",
+	"SELECT",
+	"",
+	" ",
+	"CREATE",
+	"CREATE TABLE",
+	"CREATE TABLE x",
+	"CREATE TABLE x (a CHECK (((((((((((((((((((((((((((((((((((((((((((((((((1",
+	"CREATE TABLE x (a DEFAULT '''''''''''''''''''''''''''''''''''''''')",
+	"CREATE TABLE x (a, b, c, PRIMARY KEY (c, a, c, a)) WITHOUT ROWID",
+	"\xff\xfe\x00CREATE",
+	"CREATE TABLE x (a \x00 b)",
+	"CREATE TABLE x (a -)",
+	"CREATE TABLE x (a DEFAULT - - - 1)",
+	"CREATE TABLE x (a INTEGER PRIMARY KEY) WITHOUT ROWID",
+	"create table x (rowid, oid, _rowid_)",
+	"CREATE TABLE x (a, b, PRIMARY KEY (rowid))",
+}
+
+// Hostile rewrites sqlite_master through PRAGMA writable_schema (real SQLite does
+// the record encoding, the file stays structurally well formed).
+func (w *World) Hostile() string {
+	s := w.S
+	if w.Snap == nil || len(w.Snap.Master) == 0 {
+		return ""
+	}
+	w.Exec("PRAGMA writable_schema=ON")
+	m := w.Snap.Master[s.Draw(len(w.Snap.Master), "victim")]
+	desc := ""
+	switch s.Draw(7, "hostilekind") {
+	case 0, 1: // hostile SQL text on a real object
+		sql := hostileSQL[s.Draw(len(hostileSQL), "hsql")]
+		w.Exec("UPDATE sqlite_master SET sql = CAST(? AS TEXT) WHERE name = ?", []byte(sql), m.Name)
+		desc = fmt.Sprintf("sqlite_master.sql of %s := %q", m.Name, sql)
+	case 2: // the real SQL, cut or with a byte changed
+		if m.SQL != nil && len(*m.SQL) > 0 {
+			b := []byte(*m.SQL)
+			if s.Chance(1, 2, "cut") {
+				b = b[:s.Draw(len(b), "cutat")]
+			} else {
+				b[s.Draw(len(b), "pos")] = byte(s.Draw(256, "byte"))
+			}
+			w.Exec("UPDATE sqlite_master SET sql = CAST(? AS TEXT) WHERE name = ?", b, m.Name)
+			desc = fmt.Sprintf("sqlite_master.sql of %s := %q", m.Name, string(b))
+		}
+	case 3: // root page
+		rp := []int64{0, 1, -1, int64(m.Rootpage), 2, 1 << 31, 1 << 40, int64(w.Snap.PragmaInt("page_count")) + 1, 3}[s.Draw(9, "rootpage")]
+		other := w.Snap.Master[s.Draw(len(w.Snap.Master), "other")]
+		if s.Chance(1, 2, "swaproot") {
+			rp = int64(other.Rootpage)
+		}
+		w.Exec("UPDATE sqlite_master SET rootpage = ? WHERE name = ?", rp, m.Name)
+		desc = fmt.Sprintf("sqlite_master.rootpage of %s := %d", m.Name, rp)
+	case 4: // type swap
+		ty := []string{"index", "table", "view", "trigger", "", "TABLE"}[s.Draw(6, "type")]
+		w.Exec("UPDATE sqlite_master SET type = ? WHERE name = ?", ty, m.Name)
+		desc = fmt.Sprintf("sqlite_master.type of %s := %q", m.Name, ty)
+	case 5: // odd storage classes in the row
+		col := []string{"type", "name", "tbl_name", "rootpage", "sql"}[s.Draw(5, "col")]
+		v := gen.Value(s, gen.DefaultMix)
+		w.Exec("UPDATE sqlite_master SET "+col+" = ? WHERE name = ?", v, m.Name)
+		desc = fmt.Sprintf("sqlite_master.%s of %s := %s", col, m.Name, sq.FmtVal(v))
+	default: // an extra object
+		sql := hostileSQL[s.Draw(len(hostileSQL), "hsql")]
+		w.Exec("INSERT INTO sqlite_master VALUES ('table', 'x', 'x', ?, CAST(? AS TEXT))", int64(m.Rootpage), []byte(sql))
+		desc = fmt.Sprintf("extra sqlite_master row x root=%d sql=%q", m.Rootpage, sql)
+	}
+	w.C.Note("hostile schema: %s", desc)
+	return desc
 }
